@@ -1,4 +1,5 @@
 import Driver.BusUtil
+import GbVerif.Model.Sys
 namespace Driver
 open GbVerif
 
@@ -34,6 +35,12 @@ def checkC11 (l : Line) : Verdict := Id.run do
   let addrs := addrSet (l.inS "set" == "all") (l.inN "seed")
   let mut s := mkBus l
   for (a, v) in parsePairs (l.inS "regs") do
+    -- pseudo-addresses 65536 / 65537: 64*v / 4*v clocks pass (`MemoryAreas::run_clock_cycles`, model `Sys.dev`)
+    if a ≥ 65536 then
+      match Sys.dev s (if a == 65536 then 64 * v else 4 * v) with
+      | .ok s' => s := s'
+      | .error _ => return .modelDiff "model panics while time passes in the register prefix"
+    else
     match Bus.write s a v with
     | .ok s' => s := s'
     | .error _ => return .modelDiff "model panics in the register prefix"
